@@ -491,16 +491,37 @@ def check_object_views(ctx, ser, expected_rows, ty, tag, hist):
 def history_same_object(ctx, count):
     """random histories of in-place operations on ONE Series object, all views checked after every step"""
     rng = ctx.rng
-    for _ in range(count):
-        s = Subject(ctx, allow_hidden=False, nrows=rng.randint(2, 5))
+    for it in range(count):
+        # every other history starts from a layout whose fields are windows at non-zero offsets
+        s = Subject(ctx, allow_hidden=False, nrows=rng.randint(2, 5),
+                    layout=(rng.choice(["slice", "chunks_sliced", "concat_slices", "lib_slice_view"]) if it % 2 else None))
         ser = s.series()
         ty = s.ty
         rows = [r for r in s.content["rows"]]
         hist = [{"start": s.desc()}]
         check_object_views(ctx, ser, rows, ty, "start", hist)
         for step in range(rng.randint(2, 4)):
-            kind = rng.choice(["setitem", "setitem", "setitem_none", "nest_setitem", "relabel", "read"])
+            kind = rng.choice(["setitem", "setitem", "setitem_none", "nest_setitem", "nest_setitem", "relabel", "read",
+                               "ragged_setitem", "ragged_list_field"])
             n = len(rows)
+            if kind in ("ragged_setitem", "ragged_list_field") and len(ty) >= 2:
+                # an in-place call that must be REFUSED and leave the object as it was
+                hist.append({"op": kind})
+                try:
+                    if kind == "ragged_setitem":
+                        ser.array[rng.randrange(n)] = df_of_row(ragged_row(rng, ty), ty)
+                    else:
+                        f, t = rng.choice(ty)
+                        lens = ops_lens(rows)
+                        j = rng.randrange(n)
+                        lists = [[gen.rand_cell(rng, t) for _ in range(ln + (1 if i == j else 0))] for i, ln in enumerate(lens)]
+                        ser.array.set_list_field(f, gen.mk_list_array(lists, t))
+                    ctx.case(f"history.{kind}.accepted", {"history": hist}, {"ok": True}, None, {"err": "ValueError"},
+                             features=("history",))
+                except Exception:  # noqa: BLE001 — refused, as it must be
+                    pass
+                check_object_views(ctx, ser, rows, ty, f"step{step}", list(hist))
+                continue
             if kind in ("setitem", "setitem_none"):
                 i = rng.randrange(n)
                 row = None if kind == "setitem_none" else gen.rand_row(rng, ty, p_missing=0.0, p_empty=0.2, maxlen=4)
